@@ -43,10 +43,19 @@ Fixpoint nodup_posb (l : list positive) : bool :=
 Definition group_known (n : node) (g : positive) : bool := amem g (g_used n) || amem g (g_alloc n).
 
 (** admissibility of a Bind decision in the model state *)
+(** A group counts as backed by a device in use when a bound, running or
+    terminating pod holds memory on it ([g_alloc]); a group that so far only
+    carries nominations (or nothing) needs an idle device.  (The code's own test,
+    EnoughIdleResourcesOnGpu, looks for the group's key in
+    AllocatedSharedGPUsMemory; keys are never deleted, so a group whose first
+    member was allocated and then turned into a nomination by
+    ConvertAllAllocatedToPipelined keeps a zero-valued key and later pods are
+    bound into it.  That is sound exactly when an idle device is still there,
+    which is what this guard asks.) *)
 Definition bind_guard (n : node) (t : task) (gs : list positive) : bool :=
   if is_shared t then
-    let newg := filter (fun g => negb (negb (zget g (g_used n) =? 0))) gs in
-    let oldg := filter (fun g => negb (zget g (g_used n) =? 0)) gs in
+    let newg := filter (fun g => zget g (g_alloc n) =? 0) gs in
+    let oldg := filter (fun g => negb (zget g (g_alloc n) =? 0)) gs in
     nodup_posb gs && (Z.of_nat (List.length gs) =? t_ndev t)
     && base_le (t_req t) (n_idle n)
     && forallb (enough_idle_on_gpu n (t_gmem t)) oldg
@@ -124,13 +133,36 @@ Definition apply_call (ts : list tinfo) (ns : amap node) (c : call) : option (am
               | Err => None
               end
           | None =>
+              (* a nomination is never refused by the replay: whether it stays within
+                 idle + releasing of the node is only observed ([pipe_within]) *)
               match add_task n t with
-              | Ok n1 => Some (aset nid n1 ns, pipe_guard n t gs)
+              | Ok n1 => Some (aset nid n1 ns, true)
               | Err => None
               end
           end
       | _, _ => None
       end
+  end.
+
+(** Does a nomination stay within idle + releasing of its node in the state
+    reached by the committed calls?  The properties do not demand it (a nominated
+    pod holds nothing until it is bound in a later cycle) and the real actions
+    occasionally exceed it: a pod that was nominated earlier in the cycle can be
+    chosen as a victim by a later action; evicting it "releases" capacity that was
+    never real, the preemptor is nominated onto it and the victim is then
+    un-evicted back into its nomination (observation flag 100, see DESIGN.md). *)
+Definition pipe_within (ts : list tinfo) (ns : amap node) (c : call) : bool :=
+  match c with
+  | CPipe p nid gs =>
+      match find_ti ts p, alookup nid ns with
+      | Some ti, Some n =>
+          match alookup p (n_pods n) with
+          | Some _ => true
+          | None => pipe_guard n (with_status (ti_task ti) Pipelined gs) gs
+          end
+      | _, _ => true
+      end
+  | _ => true
   end.
 
 (** replay all calls: (final nodes, all admissible) or None when a call is impossible in the model *)
@@ -173,7 +205,21 @@ Definition cycle_result (k : ccase) : bool * bool :=   (* (agrees, quirk manifes
   | None => (false, false)
   end.
 Definition cycle_agrees (k : ccase) : bool := fst (cycle_result k).
-Definition cycle_flags (k : ccase) : list nat := if snd (cycle_result k) then [1%nat] else [].
+Fixpoint nominations_within (ts : list tinfo) (ns : amap node) (cs : list call) : bool :=
+  match cs with
+  | [] => true
+  | c :: r => pipe_within ts ns c
+              && match apply_call ts ns c with
+                 | Some (ns1, _) => nominations_within ts ns1 r
+                 | None => true
+                 end
+  end.
+(** flag 1: the device-count guard quirk manifested (known finding C14-device-guard);
+    flag 100 (an observation, never an alarm): some nomination of the cycle exceeds
+    idle + releasing of its node in the committed state *)
+Definition cycle_flags (k : ccase) : list nat :=
+  (if snd (cycle_result k) then [1%nat] else [])
+  ++ (if nominations_within (c_tasks k) (c_nodes k) (c_calls k) then [] else [100%nat]).
 Definition cycle_run_flags (cs : list (nat * ccase)) : list (nat * list nat) :=
   filter (fun p => negb (Nat.eqb (List.length (snd p)) 0)) (map (fun c => (fst c, cycle_flags (snd c))) cs).
 
